@@ -72,7 +72,7 @@ def detect(name, patch, checks, seed='0', tier='quick'):
         env = dict(os.environ, PYTHONPATH=wt, VERIF_REPO=wt, VERIF_SEED=seed)
         res = {}
         for c in checks:
-            rc, out = sh([os.path.join(v, 'check'), c, '--tier', tier], cwd=v, timeout=2400, env=env)
+            rc, out = sh([os.path.join(v, 'check'), c, '--tier', tier], cwd=v, timeout=2400 if tier == 'quick' else 7200, env=env)
             lines = [l for l in out.split('\n') if l.startswith('VIOLATION')]
             first = None
             if lines:
@@ -95,7 +95,7 @@ def job(j):
         if j.get('confirm_dir'):
             r['confirm'] = confirm(j['name'], j['confirm_dir'])
         if j.get('checks'):
-            r['detect'] = detect(j['name'], j['patch'], j['checks'], seed=str(j.get('seed', 0)))
+            r['detect'] = detect(j['name'], j['patch'], j['checks'], seed=str(j.get('seed', 0)), tier=j.get('tier', 'quick'))
     except Exception as e:
         r['error'] = repr(e)
     print(json.dumps(r), flush=True)
